@@ -181,3 +181,42 @@ Definition events_of_top (i : item) : list event := trim (events_of i).
 (* shifting OPEN numbers *)
 Definition shift_tok (d : Z) (t : tok) : tok :=
   match t with TOpen n => TOpen (n + d) | TClose n => TClose (n + d) | TAbort n => TAbort (n + d) | TData z => TData z end.
+
+(* ---- OPEN numbering on the receiving side.  Banana.handleData numbers the OPENs it sees with objectCounter; the number
+   is what Unslicer.start(count)/setObject register and what a later `reference` sequence (which carries the SENDER's
+   number, Banana.openCount) is resolved against.  The receiver may be discarding part of the stream -- after an ABORT,
+   or because one of its own unslicers raised Violation on some token (a schema violation, an unknown method ...), which
+   the sender cannot know.  `viol` marks the tokens on which the receiver decides to reject: any choice is allowed.
+   Whether a discarded OPEN is counted is read from the source (recv_counts_rejected_opens). *)
+Record cstate := {
+  ccount : Z;            (* objectCounter *)
+  cdepth : nat;          (* open sequences *)
+  cdiscard : bool;       (* discardCount > 0: the rest of the current top-level object is being thrown away *)
+  cagree : bool          (* every OPEN so far got the number the sender wrote into it *)
+}.
+
+Definition cinit (c : Z) : cstate := {| ccount := c; cdepth := 0; cdiscard := false; cagree := true |}.
+
+Definition cstep (c : cstate) (tv : tok * bool) : cstate :=
+  let '(t, viol) := tv in
+  match t with
+  | TOpen n =>
+    let counted := negb (cdiscard c) || recv_counts_rejected_opens in
+    {| ccount := if counted then ccount c + 1 else ccount c; cdepth := S (cdepth c); cdiscard := cdiscard c || viol;
+       cagree := cagree c && (n =? ccount c) |}
+  | TClose _ =>
+    {| ccount := ccount c; cdepth := pred (cdepth c);
+       cdiscard := match cdepth c with S O | O => false | _ => cdiscard c || viol end; cagree := cagree c |}
+  | TAbort _ => {| ccount := ccount c; cdepth := cdepth c; cdiscard := true; cagree := cagree c |}
+  | TData _ => {| ccount := ccount c; cdepth := cdepth c; cdiscard := cdiscard c || viol; cagree := cagree c |}
+  end.
+
+Definition crun (c : cstate) (tvs : list (tok * bool)) : cstate := fold_left cstep tvs c.
+
+(* the OPENs of a token list carry consecutive numbers from c; result: the next number *)
+Fixpoint next_open (c : Z) (ts : list tok) : option Z :=
+  match ts with
+  | [] => Some c
+  | TOpen n :: r => if n =? c then next_open (c + 1) r else None
+  | _ :: r => next_open c r
+  end.
